@@ -1,6 +1,7 @@
 """Core vocabulary shared by property modules, worker and runner."""
 from __future__ import annotations
 
+import contextlib
 import hashlib
 import json
 import os
@@ -138,3 +139,26 @@ def load_known() -> dict:
 
 def known_ids(status="known") -> set:
     return {e["id"] for e in load_known().get("findings", []) if e.get("status") == status}
+
+
+@contextlib.contextmanager
+def ambient(case):
+    """Run a check under process-wide switches that must NOT influence its result: the stdlib calendar module's first weekday
+    (calendar.setfirstweekday) and pendulum's own week start/end.  Which setting is used is a pure function of the case (a third
+    of the cases keep the defaults).  Seeded changes C15-r5 / C16-r5 - and a genuine defect of first_of/last_of - lived there."""
+    import calendar
+    import json
+    import zlib
+
+    import pendulum
+    c = zlib.crc32(json.dumps(case, sort_keys=True, default=str).encode())
+    k = 0 if c % 3 == 0 else c // 3
+    calendar.setfirstweekday(k % 7)
+    pendulum.week_starts_at(pendulum.WeekDay((k // 7) % 7))
+    pendulum.week_ends_at(pendulum.WeekDay((k // 7 + 6) % 7))
+    try:
+        yield k % 7, (k // 7) % 7
+    finally:
+        calendar.setfirstweekday(0)
+        pendulum.week_starts_at(pendulum.MONDAY)
+        pendulum.week_ends_at(pendulum.SUNDAY)
